@@ -136,7 +136,16 @@ def struct_eq(I, a, b):
             if a.variant != b.variant:
                 return False
             return conj([struct_eq(I, x, y) for x, y in zip(a.fields, b.fields)])
-        return a.variant == b.variant
+        if not a.fields and not b.fields:
+            return a.variant == b.variant
+        if a.name == 'Option':
+            # symbolic presence with a payload slot: None == None, Some(x) == Some(y) iff x == y
+            pe = struct_eq(I, a.fields[0], b.fields[0]) if a.fields and b.fields else True
+            return conj([a.variant == b.variant, disj([a.variant == 0, pe])])
+        for v in (a, b):
+            if not isinstance(v.variant, int):
+                v.variant = I.world.concretize_int(v.variant, list(range(0, 8)))
+        return struct_eq(I, a, b)
     if isinstance(a, (VecObj, Slice)) and isinstance(b, (VecObj, Slice)):
         xa, xb = items_of(a), items_of(b)
         if len(xa) != len(xb):
